@@ -484,7 +484,12 @@ def run(ck):
             sgf = (sg[0] if via is None else via[2]).func
             data_vars = {d_["var"] for d_ in sgf.events("decl") if d_.get("var") and "bytes.data()" in ((d_.get("init") or {}).get("t") or "")}
             on_data = lambda x: "bytes.data()" in (x.get("t") or "") or any(re.search(r"\b%s\b" % re.escape(v_.split("@")[0]), x.get("t") or "") for v_ in data_vars)
-            ok = ok and len(a) == 3 and all(on_data(x) for x in a) and "size()" in (a[2].get("t") or "")
+            # the end of the readable area: the vector's size, or a fill counter feed() advances by `len` (which of the two the limit test
+            # uses, and that both agree, is C03-R3's clause)
+            fillc = {strip_tmpl(a_["lhs"].get("f") or "").rsplit("::", 1)[-1] for a_ in f.events("assign") if a_.get("op") == "+=" and len(f.params) > 1
+                     and (a_.get("rhs") or {}).get("v") == f.params[1]["name"] and a_["lhs"].get("f")}
+            ends_at_fill = "size()" in (a[2].get("t") or "") or any(re.search(r"\b%s\b" % re.escape(c_), a[2].get("t") or "") for c_ in fillc)
+            ok = ok and len(a) == 3 and all(on_data(x) for x in a) and ends_at_fill
             if via is None:
                 ok = ok and off[0]["var"] in (a[1].get("t") or "")
             else:
